@@ -177,7 +177,7 @@ Lemma read_extra_fwd e m k ln : gext_ok e (r_gnum m ++ k) = true -> gnum_ok m k 
   cyields (read_extra (amk (r_gext e ++ r_gnum m ++ k) ln)) (d_gext e) k.
 Proof.
   intros He Hm Hie Hc. unfold read_extra.
-  assert (Hmax : nval m <= sm_models_max) by (unfold gcount_in, UINT_MAX in Hc; change sm_models_max with 4294967295; lia).
+  assert (Hmax : nval m <= sm_models_max) by (exact (gcount_le m Hc)).
   destruct e as [[[w l] z]|]; cbn [r_gext gext_ok gext_in d_gext] in *.
   - bsplit. match goal with Hx : (nval z =? 0) = true |- _ => apply Z.eqb_eq in Hx; rename Hx into Vz end.
     rewrite <- !app_assoc.
@@ -187,7 +187,7 @@ Proof.
                 ltac:(now apply fuel_list)) as [ln2 E2].
     rewrite E2. unfold cbind.
     destruct (m_pos_fwd sm_models_max m k ln2 ltac:(unfold sm_models_max, INT64_MAX; lia) Hm Hmax) as [ln3 E3]. rewrite E3.
-    rewrite app_nil_r. eexists. reflexivity.
+    rewrite app_nil_r. exists ln3. reflexivity.
   - cbn [app]. unfold r_gnum. destruct (hd_tok m k Hm) as (c & x & Ex & Hws & _ & N69).
     destruct (skip_to (n_ws m) (n_sg m ++ n_ds m ++ k) ln) as [ln1 E1].
     { unfold gnum_ok in Hm. bsplit. assumption. }
@@ -199,7 +199,7 @@ Proof.
     replace (n_sg m ++ n_ds m ++ k) with (r_gnum (stripws m) ++ k)
       by (unfold r_gnum, stripws; cbn [n_ws n_sg n_ds app]; rewrite <- app_assoc; reflexivity).
     destruct (m_pos_fwd sm_models_max (stripws m) k ln1 ltac:(unfold sm_models_max, INT64_MAX; lia) (stripws_ok _ _ Hm) Hmax) as [ln3 E3].
-    rewrite E3. eexists. reflexivity.
+    rewrite E3. exists ln3. reflexivity.
 Qed.
 
 (* ---------------- one step ---------------- *)
@@ -253,23 +253,82 @@ Proof.
       (fun s1 => cbind (read_symbols (fuel_of s1) s1) (fun s2 => cbind (read_compute sm_kw_bplus true s2) (fun s3 =>
        cbind (read_compute sm_kw_bminus false s3) (fun s4 => cbind (read_extra s4) (fun s5 => ([CEnd], Ok s5)))))))
       (d_grules 0 (g_rules st) ++ d_syms (g_syms st) ++ d_comp true (g_bplus st) ++ d_comp false (g_bminus st) ++ d_gext (g_ext st) ++ [CEnd]) k).
-  { apply cy_bind.
+  { eapply cy_bind.
     - unfold fuel_of at 1. rewrite read_rules_skip. unfold r_gstep. rewrite <- app_assoc.
       apply read_rules_fwd_gen; try assumption.
       rewrite rest_skipws. cbn [rest].
       pose proof (drop_toks (step_toks st) (r_sec_syms st ++ k) (step_toks_ne st) ltac:(assumption)) as (L & _).
       pose proof (rules_toks_len (g_rules st)) as L2. unfold step_toks in L at 1. rewrite app_length in L. cbn [length] in L.
-      unfold step_toks in L. lia.
-    - intros ln1. unfold r_sec_syms. rewrite <- !app_assoc. apply cy_bind.
+      unfold step_toks in *. lia.
+    - intros ln1. unfold r_sec_syms. rewrite <- !app_assoc. eapply cy_bind.
       + apply read_symbols_fwd; try assumption.
         unfold fuel_of. cbn [rest]. rewrite app_length. pose proof (r_gsyms_len _ _ ltac:(eassumption)). lia.
-      + intros ln2. unfold r_sec_bp. rewrite <- !app_assoc. apply cy_bind.
+      + intros ln2. unfold r_sec_bp. rewrite <- !app_assoc. eapply cy_bind.
         * apply read_compute_fwd; [reflexivity | assumption | assumption].
-        * intros ln3. unfold r_sec_bm. rewrite <- !app_assoc. apply cy_bind.
+        * intros ln3. unfold r_sec_bm. rewrite <- !app_assoc. eapply cy_bind.
           -- apply read_compute_fwd; [reflexivity | assumption | assumption].
           -- intros ln4. unfold r_sec_ext, r_sec_models. rewrite <- !app_assoc.
-             rewrite <- (app_nil_r (d_gext (g_ext st) ++ [CEnd])). rewrite <- app_assoc. apply cy_bind.
+             rewrite <- (app_nil_r (d_gext (g_ext st) ++ [CEnd])). rewrite <- app_assoc. eapply cy_bind.
              ++ apply read_extra_fwd; assumption.
              ++ intros ln5. cbn [app]. eexists. reflexivity. }
   destruct C as [ln' E]. rewrite E. eexists. reflexivity.
+Qed.
+
+(* ---------------- the steps of a program ---------------- *)
+Lemma r_gstep_len st k : gstep_ok st k = true -> (1 <= length (r_gstep st))%nat.
+Proof.
+  unfold gstep_ok. intros H. bsplit. unfold r_gstep. rewrite app_length.
+  pose proof (r_gnums_len (step_toks st) _ ltac:(eassumption)) as L.
+  assert (1 <= length (step_toks st))%nat by (unfold step_toks; rewrite app_length; cbn [length]; lia). lia.
+Qed.
+Lemma steps_len steps : forall tail, seq_ok r_gstep gstep_ok steps tail = true -> (length steps <= length (flat_map r_gstep steps))%nat.
+Proof.
+  induction steps as [|st steps IH]; intros tail H; [cbn; lia|]. cbn [seq_ok] in H. bsplit. cbn [flat_map length]. rewrite app_length.
+  pose proof (r_gstep_len _ _ ltac:(eassumption)). specialize (IH tail ltac:(assumption)). lia.
+Qed.
+
+Lemma step_hd st k : gstep_ok st k = true -> hd 0 (drop_ws (r_gstep st ++ k)) <> 0.
+Proof.
+  unfold gstep_ok. intros H. bsplit. unfold r_gstep. rewrite <- app_assoc.
+  apply (drop_toks (step_toks st) (r_sec_syms st ++ k) (step_toks_ne st)). assumption.
+Qed.
+
+Lemma parse_steps_fwd o inc : forall steps tail fuel ln, seq_ok r_gstep gstep_ok steps tail = true -> steps <> [] ->
+  tail_ok tail = true -> forallb (gstep_in (claspExt o)) steps = true -> ((length steps <=? 1)%nat || inc = true) ->
+  (length steps <= fuel)%nat ->
+  parse_steps fuel o inc (a_skipws (amk (flat_map r_gstep steps ++ tail) ln)) = (flat_map d_gstep steps, Ok tt).
+Proof.
+  induction steps as [|st steps IH]; intros tail fuel ln Hs Hne Ht Hin Hinc Hf; [congruence|].
+  destruct fuel as [|fu]; [cbn in Hf; lia|]. cbn [seq_ok] in Hs. cbn [forallb] in Hin. bsplit.
+  cbn [parse_steps flat_map]. rewrite <- app_assoc.
+  destruct (do_parse_fwd o st (flat_map r_gstep steps ++ tail) ln ltac:(assumption) ltac:(assumption)) as [ln1 E].
+  rewrite E. unfold cbind. cbv zeta. unfold a_end. rewrite peek_hd, rest_skipws. cbn [rest].
+  destruct steps as [|st2 steps].
+  - cbn [flat_map app]. unfold tail_ok in Ht. rewrite Ht. cbn [negb andb]. reflexivity.
+  - match goal with Hx : seq_ok r_gstep gstep_ok (st2 :: steps) tail = true |- _ => rename Hx into Hs2 end.
+    assert (Hh : hd 0 (drop_ws (flat_map r_gstep (st2 :: steps) ++ tail)) <> 0).
+    { pose proof Hs2 as Hx. cbn [seq_ok] in Hx. apply andb_prop in Hx. destruct Hx as [Hx _].
+      cbn [flat_map]. rewrite <- app_assoc. now apply step_hd. }
+    apply Z.eqb_neq in Hh. rewrite Hh. cbn [negb andb].
+    cbn [length] in Hinc. destruct inc; [|discriminate]. cbn [negb].
+    rewrite (IH tail fu ln1); try assumption; try discriminate; try reflexivity.
+    all: cbn [length] in *; lia.
+Qed.
+
+(* ---------------- the reader ---------------- *)
+Lemma g_complete (o : opts) (p : gprog) :
+  glayout_ok p = true -> gin_range (claspExt o) p = true -> read_smodels o (grender p) = (gdenote p, Ok tt).
+Proof.
+  unfold glayout_ok, gin_range, gincremental, gdenote. intros Hl Hr. bsplit.
+  match goal with Hx : is_digit (hd 0 (grender p)) = true |- _ => rename Hx into Hd end.
+  unfold read_smodels. rewrite peek_hd. unfold a_init. cbn [rest]. rewrite Hd. cbn [andb].
+  match goal with Hx : negb (hd 0 (grender p) =? 57) || claspExt o = true |- _ => rewrite Hx end.
+  unfold cbind.
+  assert (Esk : a_skipws (amk (grender p) 1) = amk (grender p) 1).
+  { unfold a_skipws. cbn [rest aline]. apply skipws_l_nonws. now apply digit_not_ws. }
+  rewrite <- Esk at 2. unfold grender at 3.
+  rewrite (parse_steps_fwd o (hd 0 (grender p) =? 57) (gp_steps p) (gp_tail p)); try assumption; try reflexivity.
+  - destruct (gp_steps p); [discriminate | congruence].
+  - unfold fuel_of. cbn [rest]. unfold grender. rewrite app_length.
+    pose proof (steps_len _ _ ltac:(eassumption)). lia.
 Qed.
